@@ -162,6 +162,7 @@ int main(int argc, char ** argv) {
   myth_globalattr_t ga; myth_globalattr_init(&ga); myth_globalattr_set_n_workers(&ga, W);
   myth_init_ex(&ga);
   ctl_init(W);
+  if (ctl_log) setvbuf(ctl_log, 0, _IOLBF, 0);      /* keep the trace if the library crashes */
   g_myth_verif_hook = once_hook;
   for (int i = 0; i < NC; i++) {
     kind_of[i] = (int)((pseed + i) % 3);
